@@ -326,8 +326,17 @@ func VerifC06Set(n int, not bool, e0A, e0O, e0C, e1A, e1O, e1C, e2A, e2O, e2C, o
 
 // VerifC06Select: 2 relations x 3 alternatives; alternative k is a substvar iff sv[k], otherwise it carries an
 // architecture list that is empty (emp[k]) or holds one entry ent[k] with negation flag not[k].
+//
+// Alternative k additionally carries a multiarch qualifier ("name:q") iff qf[k], a version constraint iff vr[k] and
+// a build-profile restriction iff st[k]: none of these takes part in the selection, and the selected alternative is
+// returned with all of them intact.
 func VerifC06Select(sv0, sv1, sv2, sv3, sv4, sv5, emp0, emp1, emp2, emp3, emp4, emp5, not0, not1, not2, not3, not4, not5 bool,
-	e0, e1, e2, e3, e4, e5, o string) int {
+	e0, e1, e2, e3, e4, e5, o string,
+	qf0, qf1, qf2, qf3, qf4, qf5, vr0, vr1, vr2, vr3, vr4, vr5, st0, st1, st2, st3, st4, st5 bool, q string) int {
+	qf := []bool{qf0, qf1, qf2, qf3, qf4, qf5}
+	vr := []bool{vr0, vr1, vr2, vr3, vr4, vr5}
+	stg := []bool{st0, st1, st2, st3, st4, st5}
+	built := make([]Possibility, 6)
 	sv := []bool{sv0, sv1, sv2, sv3, sv4, sv5}
 	emp := []bool{emp0, emp1, emp2, emp3, emp4, emp5}
 	not := []bool{not0, not1, not2, not3, not4, not5}
@@ -354,7 +363,18 @@ func VerifC06Select(sv0, sv1, sv2, sv3, sv4, sv5, emp0, emp1, emp2, emp3, emp4, 
 				set.Architectures = append(set.Architectures, e)
 				admits = (e.CPU == arch.CPU) != not[k]
 			}
-			rel.Possibilities = append(rel.Possibilities, Possibility{Name: names[k], Architectures: set, StageSets: []StageSet{}})
+			p := Possibility{Name: names[k], Architectures: set, StageSets: []StageSet{}}
+			if qf[k] {
+				p.Arch = &Arch{"gnu", "linux", q}
+			}
+			if vr[k] {
+				p.Version = &VersionRelation{Number: "1", Operator: ">="}
+			}
+			if stg[k] {
+				p.StageSets = append(p.StageSets, StageSet{Stages: []Stage{{Name: "nocheck", Not: true}}})
+			}
+			built[k] = p
+			rel.Possibilities = append(rel.Possibilities, p)
 			wantAll = append(wantAll, names[k])
 			if admits && !chosen {
 				chosen = true
@@ -370,6 +390,15 @@ func VerifC06Select(sv0, sv1, sv2, sv3, sv4, sv5, emp0, emp1, emp2, emp3, emp4, 
 		for i := range got {
 			if got[i].Name != want[i] || got[i].Substvar != subst {
 				return false
+			}
+			if subst {
+				continue
+			}
+			for k := range names {
+				if names[k] == want[i] && (got[i].Arch != built[k].Arch || got[i].Version != built[k].Version ||
+					got[i].Architectures != built[k].Architectures || len(got[i].StageSets) != len(built[k].StageSets)) {
+					return false
+				}
 			}
 		}
 		return true
